@@ -12,6 +12,7 @@ THEOREMS = [
     "C23.async_nothing_before_end",
     "C23.async_last_then_completed",
     "C23.async_late_last_then_completed",
+    "C23.async_late_gets_both",
     "C23.async_error_only",
     "C23.async_empty_completes",
     "C23.async_natural",
@@ -34,7 +35,6 @@ RULE = base.RULE.replace("real Subject", "real AsyncSubject (termination generat
 LEVEL_TEXT = ("Lean theorems over the C20 machine extended with AsyncSubject.value/has_value: while the subject has neither terminated nor been disposed "
               "nobody has been handed anything and nothing is pending (invariant over all reachable configurations); on completion with a last value x exactly "
               "the members are queued for x immediately followed by completion (each handed on iff not detached at its turn), without value for completion only, "
-              "on error for the error only; late subscribers are queued for the same. Unbounded histories and reaction scripts; polymorphic in the value type. "
+              "on error for the error only; late subscribers are queued for the same. Unbounded histories and reaction scripts; polymorphic in the value type, with an explicit naturality theorem. "
               "Tied to the real code by differential execution and an independent property-text oracle.")
-LEVEL_NOTE = base.LEVEL_NOTE + (" For a late subscriber with a value the theorem gives the queued tasks and the first delivery; that the following "
-                                "completion is handed on is the generic per-turn theorem (iff not detached), not a closed statement about the final log.")
+LEVEL_NOTE = 'Stated per step (subscription, delivery-loop turn) plus invariants over all reachable configurations, not as one closed formula for a whole history. Error broadcasts reaching an observer without on_error handler (default_error raises into the emitter, the rest of the loop is skipped) are modelled and compared but treated as outside the quantifier of the property by the oracle. Re-entrant emission from callbacks and thread interleavings are not modelled (single-threaded histories, as the property quantifies). User conventions: one subscription per observer id; reaction actions wrapped in try/except. len(subject.observers) is compared with the model only.'
